@@ -48,6 +48,16 @@ func checkC15(w *World, r *Recorder) propInfo {
 	r.Floor("C15-H6", 2)
 	r.Floor("C15-H7", 2)
 	ruleNoReflectAssign(w, r, "C15-H9")
+	// H10: an extension profile (or component) built by embedding a base type
+	// is encoded and decoded as the union of its fields only as long as no
+	// codec method of the base type is promoted over it unexpectedly
+	ruleCodecMethodSets(w, r, "C15-H10")
+	// H11: what the serialisers store for a field is the plain codec's own
+	// encoding of that field's value — this is what makes the output decode to
+	// the same map as the plain marshaller's
+	for _, n := range []string{"doSerializeStructToCBOR", "doSerializeStructToJSON"} {
+		c15FieldEncoding(w, r, n, "C15-H11")
+	}
 	return info
 }
 
@@ -1776,5 +1786,130 @@ func stripConv(v ssa.Value) ssa.Value {
 		default:
 			return v
 		}
+	}
+}
+
+// c15FieldEncoding: in a serialising walker (and the closures / visitors it
+// uses) every raw value handed to the raw map — the last argument of an
+// in-repo Add, or a direct update of a map of raw messages — is result 0 of
+// the codec's Marshal (cbor.EncMode.Marshal / json.Marshal) applied to
+// <field>.Interface(), untouched apart from type conversions.
+func c15FieldEncoding(w *World, r *Recorder, name, rule string) {
+	fn := w.encWalker(name)
+	if fn == nil {
+		r.Undecide(rule, name, "-", "walker not found")
+		return
+	}
+	isJSON := strings.HasSuffix(name, "JSON")
+	// the walker, its literals, and in-package functions it hands a visitor to
+	fns := []*ssa.Function{fn}
+	seen := map[*ssa.Function]bool{fn: true}
+	for i := 0; i < len(fns) && i < 8; i++ {
+		for _, b := range fns[i].Blocks {
+			for _, in := range b.Instrs {
+				for _, op := range in.Operands(nil) {
+					var g *ssa.Function
+					switch x := (*op).(type) {
+					case *ssa.Function:
+						g = x
+					case *ssa.MakeClosure:
+						g, _ = x.Fn.(*ssa.Function)
+					}
+					if g != nil && !seen[g] && g.Blocks != nil && g.Pkg == w.Enc && (g.Parent() != nil || fieldLoopHeader(g) != nil) {
+						seen[g] = true
+						fns = append(fns, g)
+					}
+				}
+			}
+		}
+	}
+	isRaw := func(t types.Type) bool {
+		n, ok := t.(*types.Named)
+		return ok && n.Obj().Name() == "RawMessage"
+	}
+	strip := func(v ssa.Value) ssa.Value {
+		for {
+			switch x := v.(type) {
+			case *ssa.ChangeType:
+				v = x.X
+			case *ssa.Convert:
+				v = x.X
+			case *ssa.MakeInterface:
+				v = x.X
+			default:
+				return v
+			}
+		}
+	}
+	var fromMarshalD func(v ssa.Value, depth int) (bool, string)
+	fromMarshal := func(v ssa.Value) (bool, string) { return fromMarshalD(v, 0) }
+	fromMarshalD = func(v ssa.Value, depth int) (bool, string) {
+		ex, ok := strip(v).(*ssa.Extract)
+		if !ok || ex.Index != 0 {
+			return false, "the stored value is not the first result of a call"
+		}
+		c, ok := ex.Tuple.(*ssa.Call)
+		if !ok {
+			return false, "the stored value is not the result of a call"
+		}
+		var arg ssa.Value
+		switch {
+		case !isJSON && c.Call.IsInvoke() && c.Call.Method.Name() == "Marshal" && strings.HasSuffix(c.Call.Value.Type().String(), "cbor/v2.EncMode") && len(c.Call.Args) == 1:
+			arg = c.Call.Args[0]
+		case isJSON && c.Call.StaticCallee() != nil && c.Call.StaticCallee().String() == "encoding/json.Marshal" && len(c.Call.Args) == 1:
+			arg = c.Call.Args[0]
+		case c.Call.StaticCallee() != nil && w.InRepo(c.Call.StaticCallee()) && c.Call.StaticCallee().Blocks != nil && depth < 2:
+			// a helper: every value it returns is the codec's Marshal of a field value (or nil)
+			g := c.Call.StaticCallee()
+			for _, gb := range g.Blocks {
+				ret, ok := gb.Instrs[len(gb.Instrs)-1].(*ssa.Return)
+				if !ok || len(ret.Results) == 0 {
+					continue
+				}
+				if isNilConst(ret.Results[0]) {
+					continue
+				}
+				if ok, why := fromMarshalD(ret.Results[0], depth+1); !ok {
+					return false, "helper " + g.Name() + ": " + why
+				}
+			}
+			return true, ""
+		default:
+			return false, "the stored value comes from " + calleeName(&c.Call) + ", not from the codec's Marshal"
+		}
+		ic, ok := strip(arg).(*ssa.Call)
+		if !ok || ic.Call.StaticCallee() == nil || ic.Call.StaticCallee().String() != "(reflect.Value).Interface" {
+			return false, "the codec's Marshal is not applied to <field>.Interface()"
+		}
+		return true, ""
+	}
+	n := 0
+	for _, f := range fns {
+		for _, b := range f.Blocks {
+			for _, in := range b.Instrs {
+				var val ssa.Value
+				switch x := in.(type) {
+				case *ssa.Call:
+					g := x.Call.StaticCallee()
+					if g == nil || !w.InRepo(g) || g.Name() != "Add" || len(x.Call.Args) == 0 || !isRaw(x.Call.Args[len(x.Call.Args)-1].Type()) {
+						continue
+					}
+					val = x.Call.Args[len(x.Call.Args)-1]
+				case *ssa.MapUpdate:
+					if !isRaw(x.Value.Type()) {
+						continue
+					}
+					val = x.Value
+				default:
+					continue
+				}
+				n++
+				ok, why := fromMarshal(val)
+				r.Check(ok, rule, fmt.Sprintf("%s#stored-value/%d", name, n), w.InstrPos(in), "the raw value stored for a field is the codec's Marshal of the field's value", "the raw value stored for a field is not the plain codec's encoding of it ("+why+"): the output need not decode to the same map as the plain marshaller's")
+			}
+		}
+	}
+	if n == 0 {
+		r.Undecide(rule, name+"#stored-value", w.FnPos(fn), "no store into the raw map found in the walker")
 	}
 }
